@@ -528,6 +528,9 @@ impl Writer {
                 // switch to new merge data file if we exceed the max file size
                 merge_pos += nbytes;
                 if merge_pos > self.ctx.conf.max_file_size {
+                    // A finished output must be durable before any of the merged files is removed
+                    merge_datafile_writer.get_ref().sync_all()?;
+                    merge_hintfile_writer.sync()?;
                     merge_fileid += 1;
                     merge_pos = 0;
                     merge_datafile_writer =
@@ -537,6 +540,10 @@ impl Writer {
                     debug!(merge_fileid, "new merge file");
                 }
             }
+            // The copies must be durable before the files that held the originals are removed,
+            // otherwise a power loss after the removal loses data that was already on stable storage
+            merge_datafile_writer.get_ref().sync_all()?;
+            merge_hintfile_writer.sync()?;
         }
 
         // Remove stale files from system and storage statistics
